@@ -104,25 +104,29 @@ def run(c):
                 lines2.add(t2.r2_line(sc, inst, rng.bytes(rng.below(24))))
         res = c.tie("tl1-to-tl2:" + sc.sid, lines1, sc.impl, model, prefix=pre) if lines1 else []
         again = dict(produced)
+        tl1_of = {}      # r2 line -> [(source line, TL1 boxed form of the value that was written)]: the value must come back, not only the bytes
 
-        def note(l, w2):
+        def note(l, w2, w1b=None):
             f = l.split(" ")
             if w2 in ("panic", "werr") or w2.startswith("!"):
                 c.oracle_fail(l, "WriteTL2 fails (%s) on a value obtained through the generated API" % w2, l)
             else:
-                again.setdefault("codec.r2 %s %s %s %s" % (f[1], f[2], f[3], w2), l)
+                k = "codec.r2 %s %s %s %s" % (f[1], f[2], f[3], w2)
+                again.setdefault(k, l)
+                if w1b is not None:
+                    tl1_of.setdefault(k, []).append((l, w1b))
 
         for l, a, _ in res:
             if a == "panic":
                 c.oracle_fail(l, "generated code panics", l)
             elif a.startswith("ok "):
-                note(l, cc_out(a).get("w2", "?"))
+                note(l, cc_out(a).get("w2", "?"), cc_out(a).get("w1b"))
         res = c.tie("tl2-read:" + sc.sid, sorted(lines2), sc.impl, model, prefix=pre)
         for l, a, _ in res:
             if a == "panic":
                 c.oracle_fail(l, "generated code panics", l)
             elif a.startswith("ok "):
-                note(l, cc_out(a).get("w2", "?"))
+                note(l, cc_out(a).get("w2", "?"), cc_out(a).get("w1b"))
         # (D) the property itself: what the implementation wrote reads back exactly and re-encodes identically
         l3 = sorted(again)
         res = c.tie("tl2-roundtrip:" + sc.sid, l3, sc.impl, model, prefix=pre)
@@ -132,6 +136,15 @@ def run(c):
             if not a.startswith("ok %d w2=%s " % (n, w2)):
                 c.oracle_fail(l, "TL2 round trip fails: bytes written by WriteTL2 do not read back exactly / re-encode identically "
                                  "(got `%s`; written for input `%s`)" % (a[:100], again[l][:160]), l)
+            else:
+                # same bytes is not enough: the VALUE read back must be the one that was written (observable for TL1-origin types
+                # through its TL1 encoding; e.g. a float -0.0 silently left out by the writer comes back as +0.0 with identical TL2 bytes)
+                back = cc_out(a).get("w1b")
+                for src, w1b in tl1_of.get(l, []):
+                    if w1b != back:
+                        c.oracle_fail(l, "TL2 round trip changes the value: TL1 form %s of the value written (input `%s`) reads back as %s"
+                                      % (w1b[:80], src[:160], str(back)[:80]), l)
+                        break
         # (E) []byte variants of the generated code (--generateByteVersions): not modelled (slice-backed dictionaries keep
         # insertion order), so implementation only: FillRandom -> WriteTL2 -> ReadTL2 (fresh object) -> WriteTL2 must be identical
         if sc.bytes_wl:
@@ -161,7 +174,8 @@ def run(c):
         c.notes.append("FillRandom itself panics for %s (no value obtained; not counted against C03)" % ", ".join(sorted(fillpanics)))
     c.extra["rule"] = ("(A) valid type-directed TL1 encodings and FillRandom values of every TL1-origin TL2-enabled factory item are decoded and written in TL2; "
                        "(B) FillRandom values written in TL2; (C) type-directed TL2 encodings (minimal and admissibly re-encoded), 2 mutations each, random bytes; "
-                       "(D) every TL2 encoding the implementation produced in A–C is read back and re-written (round-trip oracle). distinct = distinct case line")
+                       "(D) every TL2 encoding the implementation produced in A–C is read back and re-written (round-trip oracle: exact consumed length, identical bytes, "
+                       "and for TL1-origin types the same value as observed through its TL1 encoding). distinct = distinct case line")
     c.assumptions += ["schemas: repository corpus (cases.tl with --tl2WhiteList=*, cases.tl2; thorough: goldmaster*.tl, cases.tl with a namespace whitelist) "
                       "plus checks/data/tl2extra.tl2 (TL2-only constructs) and checks/data/tl2bit.tl2 (known finding); per-schema certificates are "
                       "'for every schema explored in this run'",
